@@ -38,15 +38,18 @@ theorem lookup_of_mem {V : Type} {l : List (Nat × V)} {d : Nat} {v : V} (h : (d
       · simp only [Prod.mk.injEq] at heq; exact absurd heq.1 hk
       · exact ih hm
 
-/-- What a subgraph operator sees for a captured dependency is the naive value. -/
-theorem capView_eq {V : Type} {ops : Ops V} {r : Run V} {total : Nat → Nat} {i : Nat}
+/-- What a subgraph operator sees for a captured dependency that is not a capture placeholder
+of this graph is the (capture-free) naive value. -/
+theorem capView_val {V : Type} {ops : Ops V} {r : Run V} {caps0 : Nat → Option (V × Bool)}
+    {total : Nat → Nat} {i : Nat}
     {rest outs : List Nat} {st : St V} {E : Nat → Option V} {op : OpNode} {taken : List (Nat × V)}
-    {st2 : St V} {byVal : List (Nat × V)} (hcap : r.g.captures = [])
-    (hs : Sim r total (i :: rest) outs st E) (hop : getOp r.g i = some op)
-    (T : TakeFacts ops r st i op taken st2 byVal) (d : Nat) (hd : d ∈ capDeps r.g op) :
+    {st2 : St V} {byVal : List (Nat × V)}
+    (hs : Sim r caps0 total (i :: rest) outs st E) (hop : getOp r.g i = some op)
+    (T : TakeFacts ops r st i op taken st2 byVal) (d : Nat) (hd : d ∈ capDeps r.g op)
+    (hnc : r.g.captures.contains d = false) :
     capView r st2 byVal d = val r E d := by
   unfold capView
-  simp only [hcap, List.contains_nil, Bool.false_eq_true, if_false]
+  simp only [hnc, Bool.false_eq_true, if_false]
   cases hn : getNode r.g d with
   | none => simp [val, naiveLook, hn]
   | some n =>
@@ -118,6 +121,36 @@ theorem capView_eq {V : Type} {ops : Ops V} {r : Run V} {total : Nat → Nat} {i
           have := (hs.agree d v hv').2.2
           rw [val_value hv hb] at this
           simp only; exact this.symm
+
+/-- What a subgraph operator sees for a captured dependency is the naive value (read from the
+enclosing environment for capture placeholders). -/
+theorem capView_eq {V : Type} {ops : Ops V} {r : Run V} {caps0 : Nat → Option (V × Bool)}
+    {total : Nat → Nat} {i : Nat}
+    {rest outs : List Nat} {st : St V} {E : Nat → Option V} {op : OpNode} {taken : List (Nat × V)}
+    {st2 : St V} {byVal : List (Nat × V)} (hcw : CapsWF r caps0)
+    (hs : Sim r caps0 total (i :: rest) outs st E) (hop : getOp r.g i = some op)
+    (T : TakeFacts ops r st i op taken st2 byVal) (d : Nat) (hd : d ∈ capDeps r.g op) :
+    capView r st2 byVal d = valC r caps0 E d := by
+  rw [valC_eq]
+  by_cases hc : r.g.captures.contains d = true
+  · obtain ⟨hv, hin, _⟩ := hcw.kind d hc
+    obtain ⟨hb, ho⟩ := isInput_false hin
+    have hval : val r E d = none := by rw [val_value hv hb, ho]; exact hs.capE d hc
+    rw [hval]
+    unfold capView
+    simp only [hc, if_true, hv]
+    rw [T.caps, hs.caps]
+  · have hc' : r.g.captures.contains d = false := by simpa using hc
+    rw [capView_val hs hop T d hd hc']
+    cases hval : val r E d with
+    | some x => rfl
+    | none =>
+      simp only
+      have : caps0 d = none := by
+        cases h : caps0 d with
+        | none => rfl
+        | some p => exact absurd (hcw.dom d (by rw [h]; simp)) hc
+      rw [this]; simp
 
 /-- `step` after its take phase. -/
 theorem step_unfold {V : Type} {ops : Ops V} {r : Run V} {st : St V} {i : Nat} {op : OpNode}
